@@ -31,6 +31,10 @@ func Offset(a, b net.IP, prefixLength int) (uint64, error) {
 	if prefixLength > 128 || prefixLength < 0 {
 		return 0, errors.New("prefix out of range")
 	}
+	if len(a) != net.IPv6len || len(b) != net.IPv6len {
+		// Same requirement as AddPrefixes: handled as pairs of 64-bit ints
+		return 0, errors.New("Offset needs 128-bit IPs")
+	}
 
 	reverse := bytes.Compare(a, b)
 	if reverse == 0 {
